@@ -814,15 +814,66 @@ func checkC19(c *Ctx, r *Report) {
 		r.Check(len(bad) == 0, "C19.R1", "unsubscribe does not use a position captured at subscribe time", c.Pos(unsub.Pos()), "no captured integer is derived from len(subscribers) or used as an index/bound", "the unsubscribe closure removes by a position captured at subscribe time ("+strings.Join(bad, "; ")+"): after an earlier subscriber is removed it deletes the wrong one or panics")
 		// identity comparison present
 		cmpID := false
+		usesVal := func(x ssa.Value, src ssa.Value) bool {
+			return derivesFrom(x, func(v ssa.Value) bool { return v == src })
+		}
 		eachInstr(unsub, func(in ssa.Instruction) {
-			if bo, ok := in.(*ssa.BinOp); ok && bo.Op == token.EQL {
-				for _, fv := range unsub.FreeVars {
-					if derivesFrom(bo.X, func(v ssa.Value) bool { return v == ssa.Value(fv) }) || derivesFrom(bo.Y, func(v ssa.Value) bool { return v == ssa.Value(fv) }) {
-						cmpID = true
+			switch x := in.(type) {
+			case *ssa.BinOp:
+				if x.Op == token.EQL || x.Op == token.NEQ {
+					for _, fv := range unsub.FreeVars {
+						if usesVal(x.X, fv) || usesVal(x.Y, fv) {
+							cmpID = true
+						}
 					}
+				}
+			case *ssa.Call:
+				// the comparison may live in a helper that receives the captured id
+				sc := staticCallee(x)
+				if sc == nil {
+					return
+				}
+				g := unwrapSynthetic(sc)
+				if g == nil || g.Blocks == nil {
+					return
+				}
+				args := callArgs(x)
+				for i, a := range args {
+					captured := false
+					for _, fv := range unsub.FreeVars {
+						if _, isInt := fv.Type().Underlying().(*types.Basic); isInt || true {
+							if usesVal(a, fv) {
+								captured = true
+							}
+						}
+					}
+					if !captured || i >= len(g.Params) {
+						continue
+					}
+					if bt, ok := g.Params[i].Type().Underlying().(*types.Basic); !ok || bt.Info()&types.IsInteger == 0 {
+						continue
+					}
+					eachInstr(g, func(in2 ssa.Instruction) {
+						if bo, ok := in2.(*ssa.BinOp); ok && (bo.Op == token.EQL || bo.Op == token.NEQ) {
+							if usesVal(bo.X, g.Params[i]) || usesVal(bo.Y, g.Params[i]) {
+								cmpID = true
+							}
+						}
+						// and the helper must not use it as a position
+						switch y := in2.(type) {
+						case *ssa.IndexAddr:
+							if usesVal(y.Index, g.Params[i]) {
+								cmpID = false
+								bad = append(bad, "helper "+fnKey(g)+" indexes with the captured value")
+							}
+						}
+					})
 				}
 			}
 		})
+		if len(bad) > 0 {
+			r.Fail("C19.R1", "unsubscribe does not use a position captured at subscribe time", c.Pos(unsub.Pos()), strings.Join(bad, "; "))
+		}
 		r.Check(cmpID && idCapture, "C19.R1", "unsubscribe locates its own subscriber by identity", c.Pos(unsub.Pos()), "compares a captured id with the stored ones", "the unsubscribe closure does not search for its own subscriber by a captured identity")
 		// ids are unique: the counter is incremented on every Subscribe
 		inc := false
